@@ -507,21 +507,15 @@ theorem entriesOf_single (t' : Topic) (b : LBlock) :
   unfold entriesOf
   by_cases h : b.topic = t' <;> simp [h]
 
-/-- **One friendly append keeps the disk well-formed** and adds exactly its entry to its topic's entries. -/
-theorem diskInv_append (c : Cfg) (hc : CfgOK c) (p : Proc) (i : Inst) (f : Nat) (L : List LBlock) (t : Topic) (pay : Pay)
-    (h : DiskInv c p i f L) (hlong : t.long = false) (hfit : c.metaSz + pay.len ≤ c.blockSize)
-    (hroom : (L.length + 1) * c.blockSize ≤ c.fileSize) :
-    (appendForTopic c p i t pay).2.2 = .ok ∧
-    ∃ L', DiskInv c (appendForTopic c p i t pay).1 (appendForTopic c p i t pay).2.1 f L' ∧ L'.length ≤ L.length + 1 ∧
+/-- an operation with the layout effect of a friendly append keeps the disk well-formed and adds exactly its entry to
+its topic's entries -/
+theorem diskInv_effect (c : Cfg) (hc : CfgOK c) (p : Proc) (i : Inst) (f : Nat) (L : List LBlock) (t : Topic) (pay : Pay)
+    (p' : Proc) (i' : Inst) (h : DiskInv c p i f L) (hfit : c.metaSz + pay.len ≤ c.blockSize)
+    (eff : AppendEffect c p i t pay p' i') :
+    ∃ L', DiskInv c p' i' f L' ∧ L'.length ≤ L.length + 1 ∧
       entriesOf t L' = entriesOf t L ++ [pay] ∧ ∀ t', t' ≠ t → entriesOf t' L' = entriesOf t' L := by
-  have hroom' : i.allocOff + c.blockSize ≤ c.fileSize := by rw [h.alloc]; rw [Nat.succ_mul] at hroom; exact hroom
   have hwt := h.writers t
-  obtain ⟨hok, hfile, hcases⟩ := append_friendly c p i t pay hc.meta_pos hc.bs_pos hc.bs_le hlong hfit hroom'
-    (by intro w hw; rw [hw] at hwt; exact ⟨hwt.1, hwt.2.1⟩)
-  refine ⟨hok, ?_⟩
-  generalize appendForTopic c p i t pay = r at hfile hcases ⊢
-  obtain ⟨p', i', out⟩ := r
-  simp only at hfile hcases ⊢
+  obtain ⟨hfile, hcases⟩ := eff
   rcases hcases with ⟨hwhy, hfiles, halloc, hwr⟩ | ⟨w, hw, hwfit, hfiles, halloc, hwr⟩
   · -- a new block
     have hnb : nextBlk c i = { id := i.allocId, file := f, off := L.length * c.blockSize, limit := c.blockSize, used := 0 } := by
@@ -662,6 +656,34 @@ theorem diskInv_append (c : Cfg) (hc : CfgOK c) (p : Proc) (i : Inst) (f : Nat) 
         show (b :: post : List LBlock) = [b] ++ post from rfl, entriesOf_append, entriesOf_append,
         entriesOf_single, entriesOf_single]
       simp only [hne, if_false]
+
+/-- **One friendly append keeps the disk well-formed** and adds exactly its entry to its topic's entries. -/
+theorem diskInv_append (c : Cfg) (hc : CfgOK c) (p : Proc) (i : Inst) (f : Nat) (L : List LBlock) (t : Topic) (pay : Pay)
+    (h : DiskInv c p i f L) (hlong : t.long = false) (hfit : c.metaSz + pay.len ≤ c.blockSize)
+    (hroom : (L.length + 1) * c.blockSize ≤ c.fileSize) :
+    (appendForTopic c p i t pay).2.2 = .ok ∧
+    ∃ L', DiskInv c (appendForTopic c p i t pay).1 (appendForTopic c p i t pay).2.1 f L' ∧ L'.length ≤ L.length + 1 ∧
+      entriesOf t L' = entriesOf t L ++ [pay] ∧ ∀ t', t' ≠ t → entriesOf t' L' = entriesOf t' L := by
+  have hroom' : i.allocOff + c.blockSize ≤ c.fileSize := by rw [h.alloc]; rw [Nat.succ_mul] at hroom; exact hroom
+  have hwt := h.writers t
+  obtain ⟨hok, eff⟩ := append_friendly c p i t pay hc.meta_pos hc.bs_pos hc.bs_le hlong hfit hroom'
+    (by intro w hw; rw [hw] at hwt; exact ⟨hwt.1, hwt.2.1⟩)
+  exact ⟨hok, diskInv_effect c hc p i f L t pay _ _ h hfit eff⟩
+
+/-- the same for a batch of one entry (`batch_append_for_topic(key, &[data])`, the call the data plane makes) -/
+theorem diskInv_batch1 (c : Cfg) (hc : CfgOK c) (hmb : c.blockSize ≤ c.maxBatchBytes) (p : Proc) (i : Inst) (f : Nat)
+    (L : List LBlock) (t : Topic) (pay : Pay)
+    (h : DiskInv c p i f L) (hlong : t.long = false) (hfit : c.metaSz + pay.len ≤ c.blockSize)
+    (hroom : (L.length + 1) * c.blockSize ≤ c.fileSize) :
+    (batchAppendForTopic c p i t [pay]).2.2 = .ok ∧
+    ∃ L', DiskInv c (batchAppendForTopic c p i t [pay]).1 (batchAppendForTopic c p i t [pay]).2.1 f L' ∧
+      L'.length ≤ L.length + 1 ∧
+      entriesOf t L' = entriesOf t L ++ [pay] ∧ ∀ t', t' ≠ t → entriesOf t' L' = entriesOf t' L := by
+  have hroom' : i.allocOff + c.blockSize ≤ c.fileSize := by rw [h.alloc]; rw [Nat.succ_mul] at hroom; exact hroom
+  have hwt := h.writers t
+  obtain ⟨hok, eff⟩ := batch1_friendly c p i t pay hc.meta_pos hc.bs_pos hc.bs_le hc.cap_pos hmb hlong hfit hroom'
+    (by intro w hw; rw [hw] at hwt; exact ⟨hwt.1, hwt.2.1⟩)
+  exact ⟨hok, diskInv_effect c hc p i f L t pay _ _ h hfit eff⟩
 
 theorem blockLimitOf_unit (c : Cfg) (x : Cell) (h0 : 0 < c.metaSz) (hb0 : 0 < c.blockSize) (h : c.metaSz + x.pay.len ≤ c.blockSize) :
     blockLimitOf c x = c.blockSize := by
@@ -864,12 +886,15 @@ theorem C06_friendly_append_programs_are_recovered (c : Cfg) (hc : CfgOK c) (p :
 
 inductive FOp where
   | append (t : Topic) (p : Pay)
+  /-- `batch_append_for_topic` with one entry -/
+  | batch1 (t : Topic) (p : Pay)
   | next (t : Topic) (cp : Bool)
   | bread (t : Topic) (maxBytes : Nat) (cp : Bool) (start : Option Nat)
   | count (t : Topic)
 
 def FOp.toOp : FOp → Op
   | .append t p => .append t p
+  | .batch1 t p => .batch t [p]
   | .next t cp => .next t cp
   | .bread t m cp st => .bread t m cp st
   | .count t => .count t
@@ -877,6 +902,7 @@ def FOp.toOp : FOp → Op
 def appendsOf : List FOp → List (Topic × Pay)
   | [] => []
   | .append t p :: r => (t, p) :: appendsOf r
+  | .batch1 t p :: r => (t, p) :: appendsOf r
   | _ :: r => appendsOf r
 
 def execF (c : Cfg) : Proc → List FOp → Proc
@@ -890,7 +916,7 @@ theorem diskInv_of_same (c : Cfg) (p p' : Proc) (i i' : Inst) (f : Nat) (L : Lis
   exact ⟨h1.trans h.file, by rw [hfiles]; exact h.inrange, h2.trans h.alloc, by rw [hfiles]; exact h.lay,
     by rw [hfiles]; exact h.stray, by unfold WritersOk; rw [h4]; exact h.writers⟩
 
-theorem diskInv_execF (c : Cfg) (hc : CfgOK c) (f : Nat) (ops : List FOp) :
+theorem diskInv_execF (c : Cfg) (hc : CfgOK c) (hmb : c.blockSize ≤ c.maxBatchBytes) (f : Nat) (ops : List FOp) :
     ∀ (p : Proc) (i : Inst) (L : List LBlock), p.inst = some i → DiskInv c p i f L → Friendly c (appendsOf ops) →
       (L.length + (appendsOf ops).length) * c.blockSize ≤ c.fileSize →
       ∃ i' L', (execF c p ops).inst = some i' ∧ DiskInv c (execF c p ops) i' f L' ∧
@@ -913,6 +939,26 @@ theorem diskInv_execF (c : Cfg) (hc : CfgOK c) (f : Nat) (ops : List FOp) :
       have hroom2 : (L1.length + (appendsOf r).length) * c.blockSize ≤ c.fileSize :=
         Nat.le_trans (Nat.mul_le_mul_right _ (by simp only [List.length_cons] at *; omega)) hroom
       obtain ⟨i2, L2, hi2, h2, hlen2, hent2⟩ := ih (Eng.step c p (FOp.append t pay).toOp).1 (appendForTopic c p i t pay).2.1 L1
+        (by rw [hstep]) (by rw [hstep]; exact diskInv_inst_irrelevant c _ _ _ f L1 h1)
+        (fun x hx => hf x (List.mem_cons_of_mem _ hx)) hroom2
+      refine ⟨i2, L2, hi2, h2, by simp only [List.length_cons]; omega, ?_⟩
+      intro t0
+      rw [hent2 t0]
+      by_cases e : t = t0
+      · subst e; rw [hent]; simp [List.filter_cons]
+      · rw [hoth t0 (fun x => e x.symm)]; simp [List.filter_cons, e]
+    | batch1 t pay =>
+      simp only [appendsOf] at hf hroom ⊢
+      have hfo := hf (t, pay) List.mem_cons_self
+      have hroom1 : (L.length + 1) * c.blockSize ≤ c.fileSize :=
+        Nat.le_trans (Nat.mul_le_mul_right _ (by simp)) hroom
+      obtain ⟨_, L1, h1, hlen1, hent, hoth⟩ := diskInv_batch1 c hc hmb p i f L t pay h hfo.1 hfo.2 hroom1
+      have hstep : (Eng.step c p (FOp.batch1 t pay).toOp).1 =
+          { (batchAppendForTopic c p i t [pay]).1 with inst := some (batchAppendForTopic c p i t [pay]).2.1 } := by
+        simp only [FOp.toOp, Eng.step, withInst, hi]
+      have hroom2 : (L1.length + (appendsOf r).length) * c.blockSize ≤ c.fileSize :=
+        Nat.le_trans (Nat.mul_le_mul_right _ (by simp only [List.length_cons] at *; omega)) hroom
+      obtain ⟨i2, L2, hi2, h2, hlen2, hent2⟩ := ih (Eng.step c p (FOp.batch1 t pay).toOp).1 (batchAppendForTopic c p i t [pay]).2.1 L1
         (by rw [hstep]) (by rw [hstep]; exact diskInv_inst_irrelevant c _ _ _ f L1 h1)
         (fun x hx => hf x (List.mem_cons_of_mem _ hx)) hroom2
       refine ⟨i2, L2, hi2, h2, by simp only [List.length_cons]; omega, ?_⟩
@@ -944,16 +990,18 @@ theorem diskInv_execF (c : Cfg) (hc : CfgOK c) (f : Nat) (ops : List FOp) :
       exact ih _ i L (by rw [hstep]) (by rw [hstep]; exact diskInv_inst_irrelevant c _ _ _ f L h) hf hroom
 
 /-- **Friendly programs are recovered.**  As `C06_friendly_append_programs_are_recovered`, with reads of both APIs
-(consuming or not, cursor-based or offset-addressed) and count queries anywhere in the program: they neither move
+(consuming or not, cursor-based or offset-addressed), count queries and single-entry batch appends (the call the
+data plane of distributed-walrus makes) anywhere in the program: they neither move
 nor damage what the appends laid out, so the recovery scan still registers exactly the appended entries, topic by
 topic, in order. -/
-theorem C06_friendly_programs_are_recovered (c : Cfg) (hc : CfgOK c) (p : Proc) (i : Inst) (f : Nat)
+theorem C06_friendly_programs_are_recovered (c : Cfg) (hc : CfgOK c) (hmb : c.blockSize ≤ c.maxBatchBytes)
+    (p : Proc) (i : Inst) (f : Nat)
     (hi : p.inst = some i) (hinit : DiskInv c p i f []) (ops : List FOp) (hf : Friendly c (appendsOf ops))
     (hroom : (appendsOf ops).length * c.blockSize ≤ c.fileSize) (s : ScanSt) :
     ∃ L : List LBlock, (∀ t, entriesOf t L = ((appendsOf ops).filter (fun x => x.1 = t)).map (·.2)) ∧
       ∀ fuel, L.length < fuel →
         scanFile c f (fileCells (execF c p ops).files f) fuel 0 s = L.foldl (blockStep c f) s := by
-  obtain ⟨i', L, _, hL, hlen, hent⟩ := diskInv_execF c hc f ops p i [] hi hinit hf (by simpa using hroom)
+  obtain ⟨i', L, _, hL, hlen, hent⟩ := diskInv_execF c hc hmb f ops p i [] hi hinit hf (by simpa using hroom)
   refine ⟨L, by intro t; rw [hent t]; simp [entriesOf], ?_⟩
   intro fuel hfuel
   have hlaid := fileLaid_of_layout c hc.meta_pos hc.bs_pos _ L [] (by simpa using hL.lay) (by simpa using hL.stray)
